@@ -720,3 +720,92 @@ func c20r7(rc *core.RC) {
 		rc.Unknown("decoder/path-node-matchers", token.NoPos, "found %d matching returns in the Field/Index methods of the path nodes (confirmed: selector, index, wildcard, recursive x2)", n)
 	}
 }
+
+// ---- C20.R8 a container's DecodePath visits every element ----
+
+// The DecodePath methods of the container decoders (slice, array, map, struct) walk the elements or members of a
+// container in a loop and collect what the path selects. A selector can match any number of them (wildcard, recursive
+// descent, duplicate keys), so the collected results may only be returned where the loop meets the closing bracket of
+// the container: a success return anywhere else in the loop cuts the walk short.
+func c20r8(rc *core.RC) {
+	p := rc.P
+	n := 0
+	for _, fd := range p.Funcs("decoder") {
+		if fd.Body == nil || fd.Recv == nil || fd.Name.Name != "DecodePath" {
+			continue
+		}
+		recv := core.RecvString(fd.Recv.List[0].Type)
+		if !strings.Contains(recv, "sliceDecoder") && !strings.Contains(recv, "arrayDecoder") && !strings.Contains(recv, "mapDecoder") && !strings.Contains(recv, "structDecoder") {
+			continue
+		}
+		info := p.Info(fd)
+		fn := p.FuncName(fd)
+		rc.Touch(fn)
+		// element loops: for-loops nested inside the clause of the opening bracket
+		var loops []*ast.ForStmt
+		ast.Inspect(fd.Body, func(m ast.Node) bool {
+			if fs, ok := m.(*ast.ForStmt); ok {
+				for _, anc := range core.PathTo(fd.Body, fs) {
+					if cc, isCC := anc.(*ast.CaseClause); isCC {
+						for _, l := range cc.List {
+							if v, isC := core.ConstInt(info, l); isC && (v == '[' || v == '{') {
+								loops = append(loops, fs)
+							}
+						}
+					}
+				}
+			}
+			return true
+		})
+		if len(loops) == 0 {
+			// the struct and map decoders enter their loop after testing the opening bracket: take the outermost loop
+			ast.Inspect(fd.Body, func(m ast.Node) bool {
+				if fs, ok := m.(*ast.ForStmt); ok && len(loops) == 0 {
+					loops = append(loops, fs)
+				}
+				return true
+			})
+		}
+		k := 0
+		for _, loop := range loops {
+			ast.Inspect(loop.Body, func(m ast.Node) bool {
+				r, ok := m.(*ast.ReturnStmt)
+				if !ok || len(r.Results) != 3 || !core.IsNilIdent(info, r.Results[2]) || core.IsNilIdent(info, r.Results[0]) {
+					return true
+				}
+				if _, isCall := core.Unparen(r.Results[0]).(*ast.CallExpr); isCall {
+					return true
+				}
+				n++
+				k++
+				key := fmt.Sprintf("%s/success-return#%d at-the-closing-bracket", fn, k)
+				atClose := false
+				for _, anc := range core.PathTo(loop.Body, r) {
+					switch a := anc.(type) {
+					case *ast.CaseClause:
+						for _, l := range a.List {
+							if v, isC := core.ConstInt(info, l); isC && (v == ']' || v == '}') {
+								atClose = true
+							}
+						}
+					case *ast.IfStmt:
+						// if <byte> == ']' / '}' { … return }
+						ast.Inspect(a.Cond, func(y ast.Node) bool {
+							if be, isBin := y.(*ast.BinaryExpr); isBin && be.Op == token.EQL {
+								if v, isC := core.ConstInt(info, be.Y); isC && (v == ']' || v == '}') {
+									atClose = true
+								}
+							}
+							return true
+						})
+					}
+				}
+				rc.Check(atClose, key, r.Pos(), "the collected results are returned where the element loop meets the closing bracket of the container; a success return elsewhere in the loop ends the walk early, and a selector that matches several elements (recursive descent, wildcard) loses the later ones ($..b on [{\"b\":1},{\"b\":2}] gives [1])")
+				return true
+			})
+		}
+	}
+	if n < 2 {
+		rc.Unknown("decoder/container-decodepath-returns", token.NoPos, "found %d success returns in the element loops of the container DecodePath methods (confirmed: slice and map; the array and struct decoders do not support paths)", n)
+	}
+}
